@@ -14,6 +14,7 @@
  * -1 for the root).
  */
 #include <stdio.h>
+#include <unistd.h>
 #include <stdlib.h>
 #include <string.h>
 #include <iv_avl.h>
@@ -149,6 +150,10 @@ int main(void)
 		char *o;
 		char *osave;
 		int first = 1;
+
+		/* watchdog per case: a run-away loop in the library must not stall the whole check (the runner
+		   records the unanswered case as crashed and resumes after it) */
+		alarm(30);
 
 		line[strcspn(line, "\n")] = 0;
 		bar = strchr(line, '|');
